@@ -132,6 +132,8 @@ def concretise(hist, payload=default_payload, skin=None, k0=0):
                 t = t.decode("latin-1")  # raw bytes travel as latin-1 and are re-encoded below
         elif c == "blank":
             t = ""
+        elif c == "stat":
+            t = f" {bare_path(f, skin)}{' ' * (1 + k % 3)}| {3 + k % 7} ++{'-' * (k % 4)}"
         elif c == "sublog":
             t = f"Submodule {bare_path(f, skin)} 1234567..89abcde:"
         elif c == "subc":
@@ -233,7 +235,7 @@ def concretise(hist, payload=default_payload, skin=None, k0=0):
     return data, out
 
 
-def line_events(hist, texts, intern, tabs=8):
+def line_events(hist, texts, intern, tabs=8, git_prefix=None):
     """Per-line records for the trace (mechanical: split marker / payload, intern bytes)."""
     evs = []
     kd = ""
@@ -255,8 +257,14 @@ def line_events(hist, texts, intern, tabs=8):
         b = t.encode()
         if c == "nonl" or c == "blank" or c == "other":
             pass
+        rp, sfx = "", ""
+        if c == "stat":
+            # mechanical: the path as seen from the directory git was run in (GIT_PREFIX), and the line from the bar on
+            path_, _, rest = t[1:].partition("|")
+            rp = os.path.relpath(path_.rstrip(" "), (git_prefix or ".").rstrip("/") or ".")
+            sfx = "|" + rest
         evs.append({"c": c, "f": l["f"], "g": l["g"], "kd": l.get("kd", ""), "pre": cps(pre), "pay": cps(pay),
-                    "bid": intern(b), "comb": comb})
+                    "bid": intern(b), "comb": comb, "rp": cps(rp), "sfx": cps(sfx)})
     return evs
 
 
